@@ -42,6 +42,7 @@ type Clause struct {
 }
 
 type LoopSpec struct {
+	Var        string // controlling variable (phi name) used to find the loop; ordinal is the fallback
 	Ordinal    int
 	Unroll     int
 	Invariants []Clause
@@ -371,8 +372,13 @@ func ParseContracts(path string) (*ContractFile, error) {
 					return nil, fail("loop ordinal: %v", err)
 				}
 				curLoop = &LoopSpec{Ordinal: n, Line: l.line}
-				if len(fs) >= 3 && fs[1] == "unroll" {
-					fmt.Sscanf(fs[2], "%d", &curLoop.Unroll)
+				for k := 1; k < len(fs); k++ {
+					if fs[k] == "unroll" && k+1 < len(fs) {
+						fmt.Sscanf(fs[k+1], "%d", &curLoop.Unroll)
+					}
+					if strings.HasPrefix(fs[k], "(") && strings.HasSuffix(fs[k], ")") {
+						curLoop.Var = fs[k][1 : len(fs[k])-1]
+					}
 				}
 				cur.Loops[n] = curLoop
 			case "modifies":
